@@ -257,6 +257,11 @@ def facts_of(R):
     rq = find_fn(jq, 'requeue', 'fact:requeue')
     F['requeue_at_front'] = count(r'core\.queue\.push_front\(job\)', rq) == 1 and count(r'push_back', rq) == 0
     dq = find_fn(jq, 'dequeue', 'fact:dequeue')
+    # a job that returned Pending goes back through requeue() and nowhere else: the runners never push onto the queue themselves
+    drn = find_fn(jq, 'drain', 'fact:drain')
+    roj = find_fn(jq, 'run_one_job_now', 'fact:run_one_job_now')
+    F['drain_requeues_via_requeue'] = count(r'self\.requeue\(job\)', drn) == 1 and count(r'push_front|push_back', drn) == 0
+    F['run_one_job_now_keeps_job_in_hand'] = count(r'requeue\(', roj) == 0 and count(r'push_front|push_back', roj) == 0
     F['dequeue_pops_front'] = count(r'core\.queue\.pop_front\(\)', dq) == 1 and count(r'pop_back', dq) == 0
     sdr = find_fn(ds, 'sync_drain', 'fact:sync_drain')
     F['sync_drain_push_back'] = count(r'\.queue\.push_back\(Box::new\(unsafe_result_job\)\)', sdr) == 1 and count(r'push_front', sdr) == 0
